@@ -133,6 +133,19 @@ CHECKS["C17"] = (
     "DESIGN.md 3 (C17)",
 )
 
+CHECKS["C18"] = (
+    "Coq proof (soundness + completeness of a decision procedure, lists) about a hand-written model of the validators; exact vm_compute correspondence on a systematic perturbation grid",
+    "Model/Validate.v mirrors JokerPrior.__init__'s presence/unit loop and Normal-only loop (first error wins) and the data-source checks. "
+    "Theorems: validate_prior = Ok IFF every required parameter is present with a unit of the canonical dimension and every linear and offset "
+    "parameter has a Normal-family prior (the accept set is pinned exactly); par_names = nonlinear ++ linear ++ offsets; validate_data = Ok IFF a "
+    "single diagonal-error RVData with 0 offsets or k+1 diagonal-error RVData sources with k offsets. Each run Coq compares verdict, failing check "
+    "class and the parameter named with the implementation on ~590 systematically perturbed configurations (exhaustive single perturbations).",
+    "Trusted: Coq kernel + vm_compute; mapping of exception messages to (check class, parameter); pymc/pytensor build distributions as declared. "
+    "'Normal-family' is recognised by the code through the distribution's print name (Normal / FixedCompanionMass): subclasses with other print "
+    "names are outside the grid.",
+    "DESIGN.md 3 (C18)",
+)
+
 NOT_YET = {}
 
 
